@@ -9,14 +9,20 @@ package c14
 import (
 	"context"
 	"errors"
+	"expvar"
 	"fmt"
 	"net/http"
+	"sort"
+	"strings"
 	"sync"
 	"sync/atomic"
 	"time"
 
 	"github.com/influxdata/flux"
+	imodels "github.com/influxdata/influxdb/models"
 	"github.com/influxdata/kapacitor"
+	"github.com/influxdata/kapacitor/edge"
+	kexpvar "github.com/influxdata/kapacitor/expvar"
 	"github.com/influxdata/kapacitor/influxdb"
 	"github.com/influxdata/kapacitor/keyvalue"
 	"github.com/influxdata/kapacitor/server/vars"
@@ -100,6 +106,118 @@ func (d *tsDiag) Debug(string)                   {}
 func (d *tsDiag) AlreadyMigrated(string, string) {}
 func (d *tsDiag) Migrated(string, string)        {}
 
+// ---- which db.rp does an executing task really receive points from ----
+
+// subDiag is the TaskMaster's Diagnostic: rt.Diag, except that the log() node every stream script has
+// right after from() reports to the world's probe, tagged with the task it belongs to.
+type subDiag struct {
+	*rt.Diag
+	w *world
+}
+
+func (d *subDiag) WithTaskMasterContext(string) kapacitor.Diagnostic { return d }
+func (d *subDiag) WithTaskContext(task string) kapacitor.TaskDiagnostic {
+	return &subTask{TaskDiagnostic: d.Diag.WithTaskContext(task), task: task, w: d.w}
+}
+
+type subTask struct {
+	kapacitor.TaskDiagnostic
+	task string
+	w    *world
+}
+
+func (t *subTask) WithNodeContext(node string) kapacitor.NodeDiagnostic {
+	return &subNode{NodeDiagnostic: t.TaskDiagnostic.WithNodeContext(node), task: t.task, w: t.w}
+}
+
+type subNode struct {
+	kapacitor.NodeDiagnostic
+	task string
+	w    *world
+}
+
+func (n *subNode) LogPointData(key, prefix string, p edge.PointMessage) {
+	wave, _ := p.Fields()["wave"].(int64)
+	n.w.pmu.Lock()
+	n.w.seen[n.task] = append(n.w.seen[n.task], arrival{db: p.Database(), rp: p.RetentionPolicy(), wave: int(wave)})
+	n.w.pcond.Broadcast()
+	n.w.pmu.Unlock()
+}
+func (n *subNode) LogBatchData(key, prefix string, b edge.BufferedBatchMessage) {}
+
+type arrival struct {
+	db, rp string
+	wave   int
+}
+
+var probeDBRPs = []struct{ id, db, rp string }{{"d1", "db1", "rp1"}, {"d2", "db2", "rp2"}, {"d3", "db3", "rp3"}}
+
+// subscriptions writes two waves of one point to each of db1.rp1, db2.rp2, db3.rp3 through the real
+// ingest path and reports, for each of the given executing stream tasks, the set of db.rp whose
+// first-wave point reached its log() node before a second-wave point did.  The fork table delivers in
+// write order and a pipeline is FIFO, so when the first second-wave point has arrived every first-wave
+// point the task is subscribed to has arrived before it: exact, no guessing how long to wait.  A task
+// that executes is subscribed to at least one db.rp; should it be none of the three the probe cannot
+// finish, which is reported as a harness failure, not as a verdict.
+func (w *world) subscriptions(tasks []string) map[string]string {
+	out := map[string]string{}
+	if len(tasks) == 0 {
+		return out
+	}
+	w.pmu.Lock()
+	w.seen = map[string][]arrival{}
+	w.pmu.Unlock()
+	now := time.Now()
+	for wave := 1; wave <= 2; wave++ {
+		for _, d := range probeDBRPs {
+			pt, err := imodels.NewPoint("probe", nil, map[string]any{"wave": int64(wave)}, now)
+			if err != nil {
+				rt.Fatalf("probe point: %v", err)
+			}
+			if err := w.tm.WritePoints(d.db, d.rp, imodels.ConsistencyLevelAll, []imodels.Point{pt}); err != nil {
+				rt.Fatalf("probe write: %v", err)
+			}
+		}
+	}
+	deadline := time.Now().Add(180 * time.Second)
+	wake := time.AfterFunc(181*time.Second, func() { w.pmu.Lock(); w.pcond.Broadcast(); w.pmu.Unlock() })
+	defer wake.Stop()
+	w.pmu.Lock()
+	defer w.pmu.Unlock()
+	for _, t := range tasks {
+		for {
+			got, done := map[string]bool{}, false
+			for _, a := range w.seen[t] {
+				if a.wave == 2 {
+					done = true
+					break
+				}
+				id := "?" + a.db + "." + a.rp
+				for _, d := range probeDBRPs {
+					if d.db == a.db && d.rp == a.rp {
+						id = d.id
+					}
+				}
+				got[id] = true
+			}
+			if done {
+				var ids []string
+				for id := range got {
+					ids = append(ids, id)
+				}
+				sort.Strings(ids)
+				out[t] = strings.Join(ids, "+")
+				break
+			}
+			if time.Now().After(deadline) {
+				rt.Fatalf("subscription probe: executing task %s received no second-wave point from db1.rp1, db2.rp2, db3.rp3 within 180 s", t)
+			}
+			w.pcond.Wait()
+		}
+	}
+	return out
+}
+
 // ---- one process lifetime ----
 
 var worldNo atomic.Int64
@@ -117,6 +235,10 @@ type world struct {
 	tsd    *tsDiag
 	clu    *cluster
 	routes map[string]http.HandlerFunc // "METHOD pattern"
+	// subscription probe
+	pmu   sync.Mutex
+	pcond *sync.Cond
+	seen  map[string][]arrival
 	// onTx, if set, is called around every Update transaction of the task_store namespace.
 	onTx func(phase string, ops []rt.TxOp, err error)
 }
@@ -127,6 +249,8 @@ type world struct {
 func openWorld(path string, up bool) (*world, error) {
 	w := &world{path: path, diag: rt.NewDiag(), tsd: &tsDiag{}, clu: &cluster{}}
 	w.clu.up.Store(up)
+	w.pcond = sync.NewCond(&w.pmu)
+	w.seen = map[string][]arrival{}
 	st, err := rt.NewBoltStore(path, true, w.diag)
 	if err != nil {
 		return nil, err
@@ -139,7 +263,7 @@ func openWorld(path string, up bool) (*world, error) {
 		}
 	}
 	w.httpd = &rt.FakeHTTPD{}
-	tm := kapacitor.NewTaskMaster(fmt.Sprintf("c14w%d", worldNo.Add(1)), vars.Info, w.diag)
+	tm := kapacitor.NewTaskMaster(fmt.Sprintf("c14w%d", worldNo.Add(1)), vars.Info, &subDiag{Diag: w.diag, w: w})
 	tm.HTTPDService = w.httpd
 	tm.DeadmanService = nopDeadman{}
 	tm.InfluxDBService = w.clu
@@ -193,6 +317,7 @@ func (w *world) shutdown() bool {
 	}()
 	select {
 	case <-done:
+		w.purgeStats()
 		return true
 	case <-time.After(30 * time.Second):
 		hangs.Add(1)
@@ -201,3 +326,33 @@ func (w *world) shutdown() bool {
 }
 
 var _ = httpd.BasePath
+
+// purgeStats removes the "ingress" statistics of this world's TaskMaster from the process-wide
+// expvar registry.  kapacitor never deletes them (one per TaskMaster x db x rp x measurement: harmless
+// in a daemon with one TaskMaster, but the subscription probe makes every world create three, and a
+// thorough run opens several hundred thousand worlds in one process).
+func (w *world) purgeStats() {
+	m, ok := expvar.Get(vars.Product).(*kexpvar.Map)
+	if !ok {
+		return
+	}
+	id := w.tm.ID()
+	var keys []string
+	m.Do(func(kv expvar.KeyValue) {
+		sm, ok := kv.Value.(*kexpvar.Map)
+		if !ok {
+			return
+		}
+		if n, ok := sm.Get("name").(*kexpvar.String); !ok || n.StringValue() != "ingress" {
+			return
+		}
+		if tags, ok := sm.Get("tags").(*kexpvar.Map); ok {
+			if tv, ok := tags.Get("task_master").(kexpvar.StringVar); ok && tv.StringValue() == id {
+				keys = append(keys, kv.Key)
+			}
+		}
+	})
+	for _, k := range keys {
+		vars.DeleteStatistic(k)
+	}
+}
